@@ -104,7 +104,7 @@ def pieces(v, fn, hooks=None, args=None):
         e = x["e"]
         if e == "store":
             out.append({"kind": "store", "loops": loops, "guards": guards, "lv": x["lv"], "op": x["op"], "val": x["val"],
-                        "line": x["l"], "stack": stack, "pre": pre, "t": x.get("t", ""), "ctor_init": x.get("ctor_init", False)})
+                        "line": x["l"], "stack": stack, "pre": pre, "t": x.get("t", ""), "ctor_init": x.get("ctor_init", False), "byref": x.get("byref")})
         elif e == "asm":
             ps = asm_to_pieces(x)
             if ps is None:
